@@ -10,16 +10,9 @@
   static part; agreement of the channels is checked on the real CLI and library.
 -/
 import Rva.Proofs.C10
+import Rva.Model.Render
 import Rva.Proofs.Tables
 namespace Rva
-
-def isBlank (c : Char) : Bool := c == ' ' || c == '\t'
-
-/-- the marker line under the excerpt: `offset` cells of blank, then `n` markers -/
-def formatMarker (text : List Char) (firstNonWs start stop : Nat) : List Char :=
-  let offset := start - firstNonWs
-  let base := ((text.drop firstNonWs).take offset).map fun c => if isBlank c then c else ' '
-  base ++ List.replicate (offset - base.length) ' ' ++ List.replicate (stop + 1 - start) '^'
 
 theorem marker_prefix_length (text : List Char) (f start : Nat) :
     (((text.drop f).take (start - f)).map fun c => if isBlank c then c else ' ').length ≤ start - f := by
@@ -40,7 +33,7 @@ theorem region_marks_columns (text : List Char) (f start stop : Nat) (i : Nat) :
     obtain ⟨d, _, hd⟩ := List.mem_map.mp hc
     by_cases hbk : isBlank d = true
     · simp [hbk] at hd; subst hd
-      intro h; subst h; simp [isBlank] at hbk
+      intro h; subst h; simp [isBlank, isWsChar] at hbk
     · simp [hbk] at hd; subst hd; decide
   have hpad : (base ++ List.replicate (start - f - base.length) ' ').length = start - f := by
     simp; omega
@@ -69,5 +62,52 @@ theorem region_marks_columns (text : List Char) (f start stop : Nat) (i : Nat) :
     · intro h
       have : i - (start - f) < stop + 1 - start := by omega
       simp [this]
+
+
+/-- **C18 (`excerpt_aligned`).** In the three-line excerpt the gutter bar stands in the same
+    column of every line, and the source text and the marker line start in the same column: the
+    markers are under the characters they are counted from, for every line number (1, 9, 10, 100,
+    …), every text and every range. -/
+theorem excerpt_aligned (text : List Char) (line start stop : Nat) :
+    let num := (toString (line + 1)).toList
+    let ls := formatRegion text line start stop
+    ls.length = 3 ∧
+    (∀ l ∈ ls, l[num.length + 2]? = some '|') ∧
+    (ls[1]?.map (·.drop (num.length + 4)) = some (trimWs text)) ∧
+    (ls[2]?.map (·.drop (num.length + 4)) = some (formatMarker text (firstNonWs text) start stop)) := by
+  simp only [formatRegion]
+  generalize (toString (line + 1)).toList = num
+  refine ⟨rfl, ?_, ?_, ?_⟩
+  · intro l hl
+    simp only [List.mem_cons, List.mem_nil_iff, or_false] at hl
+    rcases hl with rfl | rfl | rfl
+    · have : (List.replicate (num.length + 1) ' ' ++ " |".toList) =
+          List.replicate (num.length + 1) ' ' ++ [' ', '|'] := rfl
+      rw [this, List.getElem?_append_right (by simp)]
+      simp
+    · have : (" ".toList ++ num ++ " | ".toList ++ trimWs text) = [' '] ++ num ++ ([' ', '|', ' '] ++ trimWs text) := by
+        simp [List.append_assoc]
+      rw [this, List.getElem?_append_right (by simp)]
+      simp
+    · have : (List.replicate (num.length + 1) ' ' ++ " | ".toList ++ formatMarker text (firstNonWs text) start stop) =
+          List.replicate (num.length + 1) ' ' ++ ([' ', '|', ' '] ++ formatMarker text (firstNonWs text) start stop) := by
+        simp [List.append_assoc]
+      rw [this, List.getElem?_append_right (by simp)]
+      simp
+  · simp only [List.getElem?_cons_succ, List.getElem?_cons_zero, Option.map_some]
+    have : (" ".toList ++ num ++ " | ".toList ++ trimWs text) = ([' '] ++ num ++ [' ', '|', ' ']) ++ trimWs text := by
+      simp [List.append_assoc]
+    rw [this, List.drop_append_of_le_length (by simp)]
+    have : ([' '] ++ num ++ [' ', '|', ' ']).drop (num.length + 4) = [] := by
+      apply List.drop_eq_nil_of_le; simp
+    rw [this]; rfl
+  · simp only [List.getElem?_cons_succ, List.getElem?_cons_zero, Option.map_some]
+    have : (List.replicate (num.length + 1) ' ' ++ " | ".toList ++ formatMarker text (firstNonWs text) start stop) =
+        (List.replicate (num.length + 1) ' ' ++ [' ', '|', ' ']) ++ formatMarker text (firstNonWs text) start stop := by
+      simp [List.append_assoc]
+    rw [this, List.drop_append_of_le_length (by simp)]
+    have : (List.replicate (num.length + 1) ' ' ++ [' ', '|', ' ']).drop (num.length + 4) = [] := by
+      apply List.drop_eq_nil_of_le; simp
+    rw [this]; rfl
 
 end Rva
